@@ -2,7 +2,6 @@ package checks
 
 import (
 	"bytes"
-	"sort"
 	"strings"
 
 	"mvdan.cc/sh/v3/syntax"
@@ -17,12 +16,11 @@ import (
 // construct) or an output normaliser. A failure belongs to the smallest set of
 // transparent families whose repairs, applied together, make the interpreter
 // produce exactly bash's stdout and status: the divergence is then fully
-// explained by those families and nothing else. The class is their names
-// joined by "+". An "opaque" family has only a narrow syntactic trigger; it is
-// used when no set of repairs explains the failure and the trigger is present
-// (the class then also lists the repairs that were needed, if any subset got
-// closer is not attempted: opaque classes are kept few and narrow).
-// Everything else stays unclassified.
+// explained by those families and nothing else. The class is the first of
+// them in the order of c26Families. An "opaque" family (c26_opaque.go) has
+// only a narrow syntactic trigger; it is used when no set of repairs explains
+// the failure and the trigger construct occurs in the program. Everything
+// else stays unclassified.
 
 type c26Family struct {
 	name string
@@ -320,23 +318,24 @@ func c26Classify(t c26Case, ir oracle.InterpResult, br c26Res, run func(f *synta
 		best, bestN = mask, n
 	}
 	if best > 0 {
-		names := map[string]bool{}
+		// several repairs needed together: the class is the first of them in
+		// the order of c26Families (keeps the number of classes bounded)
 		for b, i := range app {
 			if best&(1<<b) != 0 {
-				names[c26Families[i].name] = true
+				return c26Families[i].name
 			}
 		}
-		var ns []string
-		for n := range names {
-			ns = append(ns, n)
-		}
-		sort.Strings(ns)
-		return strings.Join(ns, "+")
 	}
 	// no set of repairs explains it: the first opaque family (narrowest
 	// first) whose trigger construct occurs in the program
 	for _, o := range c26Opaque {
 		if o.trigger(f0, t.Src) {
+			return o.name
+		}
+	}
+	obs := c26Observed{ir.Stdout, br.Out, ir.Status, br.Status}
+	for _, o := range c26OpaqueDirected {
+		if o.trigger(f0, t.Src, obs) {
 			return o.name
 		}
 	}
